@@ -1,2 +1,5 @@
 pub mod engine;
 pub mod c20;
+pub mod logmodel;
+pub mod logl1;
+pub mod c02;
